@@ -223,6 +223,7 @@ func runCLITargets(c *Ctx, run *ev.Run, prop string, cs cliTargetsCase) {
 		_ = os.WriteFile(bf, cs.DefBody, 0o644)
 		args = append(args, "-body", bf)
 	}
+	waitForPorts(run, 16000, 90*time.Second)
 	bin := c.Bin("vegeta")
 	raceLog := ""
 	if _, err := os.Stat(c.Bin("vegeta-race")); err == nil && cs.Workers > 1 && cs.Seed%2 == 0 {
@@ -251,6 +252,12 @@ func runCLITargets(c *Ctx, run *ev.Run, prop string, cs cliTargetsCase) {
 		return
 	}
 	reqs := srv.Requests()
+	for _, r := range c20DecodeFile(filepath.Join(dir, "out.gob")) {
+		if portStarved(r.Error) { // the operating system had no free local port: says nothing about the targeter
+			run.Count("cli_cases_not_judged_no_free_local_ports", 1)
+			return
+		}
+	}
 	run.Eval(1)
 	run.Count("cli_targets_runs", 1)
 	run.Count("cli_requests_on_the_wire", int64(len(reqs)))
